@@ -20,7 +20,8 @@ DELIVERED = [0]  # bytes handed by the loop to the protocol so far (all deliveri
 LOST_RANGES: list[tuple[int, int]] = []  # (stream offset, nbytes) of deliveries dropped by the known mechanism
 _installed = False
 _P = "_StreamReaderBufferedProtocol__"
-_PENDING_EXTERNAL: dict[int, tuple[int, int]] = {}
+_PENDING_EXTERNAL: dict[int, tuple] = {}
+_ORDER_SEEN: dict[int, bool] = {}
 
 
 def reset() -> None:
@@ -53,12 +54,23 @@ def install() -> None:
     cls = _sock.StreamReaderBufferedProtocol
     orig_updated = cls.buffer_updated
     orig_wait = cls._wait_for_data
+    orig_get_buffer = cls.get_buffer
+
+    def get_buffer(self, sizehint: int):
+        # the order "reader cancelled, then read event, before the reader's task ran" is observed here, whether or not the
+        # protocol then loses the bytes (it did before the repair: it handed out the cancelled reader's buffer)
+        ext = getattr(self, _P + "external_buffer_view", None)
+        waiter = getattr(self, _P + "read_waiter", None)
+        if ext is not None and (waiter is None or waiter.done()):
+            _ORDER_SEEN[id(self)] = True
+        return orig_get_buffer(self, sizehint)
 
     def buffer_updated(self, nbytes: int) -> None:
         ext = getattr(self, _P + "external_buffer_view", None)
         waiter = getattr(self, _P + "read_waiter", None)
         off = DELIVERED[0]
         DELIVERED[0] += nbytes
+        order = _ORDER_SEEN.pop(id(self), False)
         if ext is not None:
             if waiter is None or waiter.done():
                 EVENTS.append(("cancel-then-read", nbytes, off))
@@ -66,7 +78,9 @@ def install() -> None:
             else:
                 EVENTS.append(("external-delivery", nbytes, off))
                 if waiter is not None:
-                    _PENDING_EXTERNAL[id(waiter)] = (off, nbytes)
+                    _PENDING_EXTERNAL[id(waiter)] = (off, nbytes, getattr(self, _P + "buffer_nbytes_written", 0))
+        elif order:
+            EVENTS.append(("cancel-then-read", nbytes, off))  # order produced, bytes kept in the protocol's own buffer
         else:
             EVENTS.append(("internal-delivery", nbytes, off))
         return orig_updated(self, nbytes)
@@ -80,14 +94,16 @@ def install() -> None:
         except asyncio.CancelledError:
             w = waiter_box[0] if waiter_box else None
             if w is not None and w.done() and not w.cancelled() and w.exception() is None and w.result():
-                off, n = _PENDING_EXTERNAL.pop(id(w), (None, w.result()))
+                off, n, had = _PENDING_EXTERNAL.pop(id(w), (None, w.result(), 0))
                 EVENTS.append(("read-then-cancel", w.result(), off))
-                if off is not None:
+                kept = getattr(self, _P + "buffer_nbytes_written", 0) >= had + n  # taken back into the protocol's own buffer
+                if off is not None and not kept:
                     LOST_RANGES.append((off, n))
             else:
                 EVENTS.append(("cancelled-receive", 0))
             raise
 
+    cls.get_buffer = get_buffer  # type: ignore[method-assign]
     cls.buffer_updated = buffer_updated  # type: ignore[method-assign]
     cls._wait_for_data = _wait_for_data  # type: ignore[method-assign]
 
